@@ -1,5 +1,6 @@
 """C12 - messages, tag names and paths reach the VCS verbatim."""
 from campaigns.argv import Argv
+from campaigns.commitfail import CommitFail
 
 PROPERTY = "C12"
 LEVEL = "exploration"
@@ -16,7 +17,8 @@ ASSUMPTIONS = ["templates contain no braces other than the documented placeholde
                "this is arguably lossy - candidate F10, outside the generator)",
                "hg is FakeRepo only"]
 COMPONENTS = {"bumpver cli update, vcs.VCSAPI": "real", "git/hg": "FakeRepo at the argv seam (ARGV); real git 2.39 (ARGVREAL)"}
-CAMPAIGNS = [Argv("C12", quick=10000, thorough=300000), Argv("C12", quick=200, thorough=6000, real=True)]
+CAMPAIGNS = [Argv("C12", quick=10000, thorough=300000), Argv("C12", quick=200, thorough=6000, real=True),
+             CommitFail("C12", quick=160, thorough=4000)]
 
 
 def sanity_gate(tier, total):
